@@ -1098,6 +1098,30 @@ class FnTranslator:
                 # (declared as parameters keyed `row.<column>`); E must not mention T itself
                 out.append(ast.Assign(targets=[s.targets[0]], value=s.value.elt))
                 continue
+            if isinstance(s, ast.Assign) and len(s.targets) == 1 and isinstance(s.targets[0], ast.Subscript) \
+                    and isinstance(s.targets[0].value, ast.Name) and isinstance(s.targets[0].slice, ast.Constant) \
+                    and isinstance(s.targets[0].slice.value, str) and isinstance(s.value, ast.Call) \
+                    and ast.unparse(s.value.func) == s.targets[0].value.id + '.apply' \
+                    and len(s.value.args) == 1 and isinstance(s.value.args[0], ast.Lambda) \
+                    and [(k.arg, ast.unparse(k.value)) for k in s.value.keywords] == [('axis', '1')]:
+                # [loop ties e1] T['col'] = T.apply(lambda row: E, axis=1): DataFrame.apply with axis=1 calls the function once
+                # per row of T with that row (its cells are `row['c']`, declared as parameters keyed `row['c']`) and the results
+                # form a Series on T's own index, which the column assignment places row by row -- per row it is T['col'] = E.
+                # Refused unless the lambda has exactly one plain parameter, whose name occurs nowhere else in the enclosing
+                # function (so `row[..]` can only mean the row handed over by apply), and E does not mention T itself.
+                lam, tname = s.value.args[0], s.targets[0].value.id
+                la = lam.args
+                if la.vararg or la.kwarg or la.kwonlyargs or la.posonlyargs or la.defaults or len(la.args) != 1:
+                    raise Refuse('%s: %s.apply(lambda ..., axis=1) with a lambda that does not take exactly the row' % (self.rel, tname))
+                rname = la.args[0].arg
+                inside = sum(1 for x in ast.walk(lam) if (isinstance(x, ast.Name) and x.id == rname) or (isinstance(x, ast.arg) and x.arg == rname))
+                everywhere = sum(1 for x in ast.walk(self.cur_fnode) if (isinstance(x, ast.Name) and x.id == rname) or (isinstance(x, ast.arg) and x.arg == rname))
+                if inside != everywhere or any(isinstance(x, ast.Name) and x.id == tname for x in ast.walk(lam.body)) \
+                        or any(isinstance(x, (ast.Lambda, ast.NamedExpr, ast.ListComp, ast.GeneratorExp, ast.SetComp, ast.DictComp)) for x in ast.walk(lam.body)):
+                    raise Refuse('%s: %s.apply(lambda %s: ..., axis=1): %s is bound elsewhere, or the body mentions %s / binds names'
+                                 % (self.rel, tname, rname, rname, tname))
+                out.append(ast.Assign(targets=[s.targets[0]], value=lam.body))
+                continue
             if isinstance(s, ast.Assign) and len(s.targets) == 1 and isinstance(s.targets[0], ast.Name) \
                     and isinstance(s.value, ast.Call) and isinstance(s.value.func, ast.Attribute) and s.value.func.attr == 'assign' \
                     and isinstance(s.value.func.value, ast.Name) and s.value.func.value.id == s.targets[0].id \
